@@ -41,11 +41,22 @@ def san_env():
     e['TSAN_OPTIONS'] = 'halt_on_error=0:report_signal_unsafe=0:exitcode=66'
     return e
 
+def locale_env(run):
+    """runs that ask for a process locale get the synthetic single-byte locale built offline by tools/make_locale.py"""
+    if '--locale' not in run.args:
+        return {}
+    d = os.path.join(build.BUILD, 'locale')
+    sys.path.insert(0, os.path.join(build.ROOT, 'tools'))
+    import make_locale
+    make_locale.main(d)
+    return {'LOCPATH': d}
+
 def run_program(run, deadline_s, seed, tier, workers=None):
     exe = run.binary()
     cmd = [exe, '--workers', str(workers or NPROC), '--deadline', '%d' % max(5, int(deadline_s)), '--seed', str(seed), '--tier', tier] + run.args
     env = san_env()
     if run.env: env.update(run.env)
+    env.update(locale_env(run))
     t0 = time.time()
     try:
         p = subprocess.run(cmd, capture_output=True, env=env, timeout=deadline_s + 120)
@@ -72,8 +83,12 @@ def run_program(run, deadline_s, seed, tier, workers=None):
 
 def replay_once(run, replay_args):
     exe = run.binary(run.replay_mode)
-    cmd = [exe] + shlex.split(replay_args)
-    p = subprocess.run(cmd, capture_output=True, env=san_env(), timeout=600)
+    pre = []
+    if '--locale' in run.args:
+        pre = ['--locale', run.args[run.args.index('--locale') + 1]]
+    cmd = [exe] + pre + shlex.split(replay_args)
+    env = san_env(); env.update(locale_env(run))
+    p = subprocess.run(cmd, capture_output=True, env=env, timeout=600)
     return p.returncode, (p.stdout.decode('utf-8', 'replace') + p.stderr.decode('utf-8', 'replace'))[-3000:]
 
 def check(pid, tier, seed, runs, level='model_checking', rule=None, assumptions=None, keyfilter=None,
